@@ -47,6 +47,11 @@ CHECKS = {
    text="Every sequence of up to 5 (thorough 6) operations over {Save c1=1, Save c1=2, Save c2, Save of a foreign-shard condition, Delete, DeleteUpstream, Flush, Stop} runs on the real objectStore in write-through and in periodic mode over a fake API pre-loaded with a condition of the own and one of the foreign shard; each sequence is run fault-free, with every (API call index x {NotFound, Conflict, AlreadyExists, ServerTimeout}) and with a crash before every API call. After every run a new store loads the shard: it must hold exactly the persisted conditions of the shard, every acknowledged write-through save, nothing acknowledged as deleted, and foreign objects must be untouched; Flush/Stop returning nil must have persisted every acknowledged condition. Engine A explores Flush racing Delete / DeleteUpstream / Save (every API call and statement a schedule point, up to 2/3 preemptions).",
    ref="DESIGN.md §6 C19",
    note="Trusted: the fake clientset's tracker as durable state with the two stated corrections towards real-API behaviour; state-consistent fault model; apimachinery's back-off sleeps run on the virtual clock; the store's timer loop is not started (flushes are triggered through Flush/Stop)."),
+ "C05": dict(cat="model_checking", engine="vsched+xstate",
+   technique="stateless model checking of concurrent TryAcquire/Release/resize on the real local limiter stack incl. the instrumented third-party atomic bucket (preemption-bounded DFS, linearizability oracle, quiescence probe) + explicit-state BFS of reconfiguration histories",
+   text="Engine A: 7 (thorough 9) scenarios of 2-3 threads doing acquire/release/resize through upstreamLimiter.GetOrDefault on limits 1 and 2 (resizes 2->1, 1->2, 1->0, full bucket), every interleaving up to 2 (thorough 3) preemptions at statement/atomic-operation granularity: the call/return history must be explainable by a counter with limit (a refusal is always allowed, an acquire overlapping a resize may use either limit), and once everything has finished exactly M new requests are admitted (no leak, no phantom slot). Engine B: every history to depth 7 (thorough 9) of acquire, release (on the object the request was handed), Sync to {max 1, max 2, max 0, token bucket, exempt, schema absent}, adding/removing a second schema, exhausting the second schema or the same schema of another cluster: never more than M admitted-since-the-schema-became-max-in-flight unfinished, full capacity once all finished, no cross-schema or cross-cluster rejection. The canonical state includes the limiter's observed free capacity.",
+   ref="DESIGN.md §6 C05",
+   note="Trusted: shim semantics; instrumented copy of zoumo/golib max_inflight.go from the module cache; the ways a proxied request ends (upstream error, abort, panic) are exercised over the real handler chain by C04/C15, not here."),
 }
 def manifest():
     checks = []
